@@ -103,8 +103,10 @@ def _f2(ctx):
             for s in t.body:
                 for r in ([s] if isinstance(s, ast.Return) else [y for y in ast.walk(s) if isinstance(y, ast.Return)]):
                     v = r.value
-                    if isinstance(v, ast.UnaryOp) and isinstance(v.op, ast.Not) and isinstance(v.operand, ast.Compare) and norm(v.operand.comparators[0]) == "0":
-                        rel = type(v.operand.ops[0]).__name__
+                    if isinstance(v, ast.UnaryOp) and isinstance(v.op, ast.Not) and isinstance(v.operand, ast.Compare) and len(v.operand.ops) == 1 and "0" in (norm(v.operand.comparators[0]), norm(v.operand.left)):
+                        _fl = {"Lt": "Gt", "Gt": "Lt", "LtE": "GtE", "GtE": "LtE"}
+                        nm = type(v.operand.ops[0]).__name__
+                        rel = nm if norm(v.operand.comparators[0]) == "0" else _fl.get(nm, nm)  # as seen with f on the left
             if rel:
                 break
         qs = None
